@@ -22,6 +22,8 @@ Decides:
  L last of line   touching_last_remove compares the consumed index with the length of the WHOLE item list (not the end of the current
                    scope, which inside an adjacent group is not what the user is typing).
  H hints put back complete(..)/complete_shell(..) put every stashed hint that is not a metavariable back through push_comp.
+ P positional-only  the flag handed to Complete::complete is true exactly when the item BEFORE the word being completed is a PosWord; neither the
+                   spelling nor the kind of the word itself takes part.
 Does not decide: the candidate set for a given prefix (depth / prefix filtering is value-level)."""
 import re
 from core import *
